@@ -254,7 +254,7 @@ class C11(Monitor):
         prints = 0
         clears = set()
         for i, st in enumerate(case["steps"]):
-            before_regions = [r["id"] for r in p.regions()]
+            before_regions = [r.get("id") for r in p.regions()]
             trk = tracking(p)
             try:
                 res = d.do(st)
@@ -264,7 +264,7 @@ class C11(Monitor):
                     break
                 v.append(dict(kind="exception-while-inactive", idx=i, cmd=repr(st), detail=repr(exc), mechanism=None))
                 break
-            after_regions = [r["id"] for r in p.regions()]
+            after_regions = [r.get("id") for r in p.regions()]
             stats["c11_steps"] += 1
             # ---- reference state machine
             if st[0] == "event":
@@ -392,7 +392,10 @@ class C10(Monitor):
         for x in dirty:
             stats["dirty:" + x] += 1
         regions_now = p1.regions()
-        # fresh plugin with the same settings and the same region list
+        # fresh plugin with the same settings and the same region list - built from a re-imported package, so that it is as fresh
+        # as after a server restart (class- and module-level leftovers of the used plugin are not shared)
+        from ..harness import fresh_plugin_module
+        fresh_plugin_module()
         d2 = Driver(settings)
         p2 = d2.p
         for r in regions_now:
